@@ -274,6 +274,8 @@ type upath struct {
 	Arg    map[ssa.Value]ssa.Value // helper parameter -> actual argument (innermost binding on this path)
 	Ret    map[ssa.Value]ssa.Value // helper call -> value returned on this path (single-result helpers; first result otherwise)
 	RetAll map[ssa.Value][]ssa.Value
+	Loop   bool            // the path ends where it would re-enter a block it already visited (only with cutLoops)
+	LoopTo *ssa.BasicBlock // that block
 }
 
 // resolve chases helper parameters to arguments and helper calls to returned values.
@@ -327,7 +329,13 @@ func (p *upath) phi(ph *ssa.Phi) ssa.Value {
 }
 
 // enumPathsU enumerates the acyclic entry→return paths of f with private helpers inlined.
-func enumPathsU(f *ssa.Function, limit int) ([]upath, bool) {
+func enumPathsU(f *ssa.Function, limit int) ([]upath, bool) { return enumPathsOpt(f, limit, false) }
+
+// enumIterPathsU: like enumPathsU, but a path that would re-enter a block it has already visited ends there
+// (Loop/LoopTo are set). Every block of a loop body is thus covered by a path from the entry that visits it once.
+func enumIterPathsU(f *ssa.Function, limit int) ([]upath, bool) { return enumPathsOpt(f, limit, true) }
+
+func enumPathsOpt(f *ssa.Function, limit int, cutLoops bool) ([]upath, bool) {
 	ok := true
 	var out []upath
 	type frame struct {
@@ -356,6 +364,15 @@ func enumPathsU(f *ssa.Function, limit int) ([]upath, bool) {
 		}
 		if p.i == 0 {
 			if on[p.b] {
+				if cutLoops {
+					sn := snapshot()
+					sn.Loop, sn.LoopTo = true, p.b
+					out = append(out, sn)
+					if len(out) > limit {
+						ok = false
+					}
+					return
+				}
 				ok = false // loop
 				return
 			}
@@ -454,12 +471,45 @@ func enumPathsU(f *ssa.Function, limit int) ([]upath, bool) {
 							continue
 						}
 					}
+					if r := cur.resolve(cond); r != cond {
+						cond = r // result of a helper on this path
+						continue
+					}
 					break
+				}
+				known, knownVal := false, false
+				if b, ok := cond.(*ssa.BinOp); ok && (b.Op == token.EQL || b.Op == token.NEQ) {
+					// comparison of a helper's result with nil, decided by what the helper returned on this path
+					var other ssa.Value
+					if isNilConst(b.Y) {
+						other = b.X
+					} else if isNilConst(b.X) {
+						other = b.Y
+					}
+					if other != nil {
+						if rv := cur.value(other); rv != other {
+							switch strip(rv).(type) {
+							case *ssa.Alloc, *ssa.MakeClosure, *ssa.MakeMap, *ssa.MakeChan, *ssa.MakeSlice, *ssa.Function, *ssa.Global:
+								known, knownVal = true, b.Op == token.NEQ
+							case *ssa.Const:
+								if isNilConst(rv) {
+									known, knownVal = true, b.Op == token.EQL
+								}
+							default:
+								if _, isMI := rv.(*ssa.MakeInterface); isMI {
+									known, knownVal = true, b.Op == token.NEQ
+								}
+							}
+						}
+					}
 				}
 				for k, s := range p.b.Succs {
 					val := k == 0
 					if neg {
 						val = !val
+					}
+					if known && knownVal != val {
+						continue // infeasible on this path
 					}
 					if cst, ok := cond.(*ssa.Const); ok && cst.Value != nil && (cst.Value.String() == "true" || cst.Value.String() == "false") {
 						if (cst.Value.String() == "true") != val {
@@ -588,4 +638,39 @@ func forEach(ins []ssa.Instruction, f func(ssa.Instruction)) {
 	for _, in := range ins {
 		f(in)
 	}
+}
+
+// index of an instruction on the path (-1 if absent).
+func (p *upath) indexOf(in ssa.Instruction) int {
+	for i, x := range p.Instrs {
+		if x == in {
+			return i
+		}
+	}
+	return -1
+}
+
+// last returns the final instruction of the path.
+func (p *upath) last() ssa.Instruction {
+	if len(p.Instrs) == 0 {
+		return nil
+	}
+	return p.Instrs[len(p.Instrs)-1]
+}
+
+// value resolves v along the path: helper parameters, helper results and phis (by the edge taken).
+func (p *upath) value(v ssa.Value) ssa.Value {
+	for i := 0; i < 16; i++ {
+		r := p.resolve(v)
+		if ph, ok := r.(*ssa.Phi); ok {
+			if e := p.phi(ph); e != nil {
+				r = e
+			}
+		}
+		if r == v {
+			return v
+		}
+		v = r
+	}
+	return v
 }
